@@ -249,7 +249,7 @@ def conditions(tier):
 
 
 META = {
-    "bounds": {"quick": "two-file project with one outsourced external; fault at any of the first 41 environment calls of the session end (a fault-free session makes fewer), 3 kinds, 2 formatter configurations, create/fix bits and 4 values symbolic",
+    "bounds": {"quick": "two-file project with one outsourced external; fault at any of the first 41 environment calls of the session end (a fault-free session makes fewer), 4 kinds (exception, non-zero exit, unparsable output, killed with truncated output), 2 formatter configurations, create/fix bits and 4 values symbolic",
                "thorough": "same"},
     "outside": "`write()` itself failing after the file was truncated (the property lists compute/format/apply faults); process kill; more files",
     "assumptions": ["fault proxies wrap black.format_str, the format-command subprocess, Path.read_text in _rewrite_code, Path.rename in _external and open(..., 'bw'); everything else runs for real on a scratch project directory",
